@@ -49,7 +49,8 @@ def render_files(case):
         if perm:
             rows = [rows[i] for i in perm if i < len(rows)] + [
                 r for i, r in enumerate(rows) if i not in set(perm)]
-        lines = [header]
+        lines = [case.get('header_prefix', '') + header
+                 if case.get('header_prefix') else header]
         for epoch, value in rows:
             lines.append('{},{}'.format(render_time(epoch, tz),
                                         fmt_value(value)))
@@ -101,9 +102,13 @@ def load_memory(case, texts=None):
 def write_files(case, directory, texts=None):
     texts = texts or render_files(case)
     paths = {}
+    # files exported from spreadsheets start with a byte-order mark; the CLI
+    # opens its inputs as utf-8-sig
+    encoding = 'utf-8-sig' if case.get('bom') else 'utf-8'
     for name, text in texts.items():
         paths[name] = os.path.join(directory, name + '.txt')
-        with open(paths[name], 'w', encoding='utf-8') as f:
+        with open(paths[name], 'w', encoding=encoding, newline=(
+                '\r\n' if case.get('crlf') else '\n')) as f:
             f.write(text)
     return paths
 
